@@ -223,12 +223,11 @@ theorem reconLoop_head (steps : Nat → JStep) : ∀ (fuel : Nat) (cur : JStep) 
 theorem nodes_mem {l : List NTD} {s : Nat} {a : NTD} (h : l.find? (·.stop = s) = some a) : a ∈ l ∧ a.stop = s :=
   find_mem h
 
-/-- **`reverseJourneyStep` returns a valid itinerary** whenever the clean-up preserves validity -/
-theorem reverseJourney_valid {cx : Ctx} {pre T : List Conn} {s : RState} (hI : RInv cx pre s)
-    (hpT : ∀ c ∈ pre, c ∈ T) (mwOf : Nat → Int) (hmw : ∀ c ∈ pre, c.effWait cx.p.minWait = mwOf c.trip)
+/-- what `reverseJourneyStep` returns is `emit` of a valid journey -/
+theorem reverseJourney_emits {cx : Ctx} {pre : List Conn} {s : RState} (hI : RInv cx pre s)
     (hclean : CleanupPreserves cx pre) {r : Route}
     (h : reverseJourney cx s (bestAccess cx s) = .ok r) :
-    ValidItinerary T cx.ds.foot cx.accessFoot cx.egressFoot mwOf r := by
+    ∃ bd j, r = emit cx.ds cx.p.minWait bd j ∧ JourneyOK cx pre bd j := by
   unfold reverseJourney at h
   cases hb : bestAccess cx s with
   | none => rw [hb] at h; cases h
@@ -287,6 +286,15 @@ theorem reverseJourney_valid {cx : Ctx} {pre T : List Conn} {s : RState} (hI : R
                 cases eg; simp at hm ⊢; exact hm.2.symm
               simp only []
               rw [this]; exact hm.1
-          exact emit_valid hpT mwOf hmw (hclean bd _ o hJ hopt)
+          exact ⟨bd, o.journey, rfl, hclean bd _ o hJ hopt⟩
+
+/-- **`reverseJourneyStep` returns a valid itinerary** whenever the clean-up preserves validity -/
+theorem reverseJourney_valid {cx : Ctx} {pre T : List Conn} {s : RState} (hI : RInv cx pre s)
+    (hpT : ∀ c ∈ pre, c ∈ T) (mwOf : Nat → Int) (hmw : ∀ c ∈ pre, c.effWait cx.p.minWait = mwOf c.trip)
+    (hclean : CleanupPreserves cx pre) {r : Route}
+    (h : reverseJourney cx s (bestAccess cx s) = .ok r) :
+    ValidItinerary T cx.ds.foot cx.accessFoot cx.egressFoot mwOf r := by
+  obtain ⟨bd, j, rfl, hJ⟩ := reverseJourney_emits hI hclean h
+  exact emit_valid hpT mwOf hmw hJ
 
 end Tr
